@@ -110,7 +110,7 @@ def build_index(ctx):
             mm = IMPL_RE.match(text.strip())
             meth = m.group(6)
             if mm:
-                ty = mm.group("ty").replace("&", "").replace("mut ", "").strip().split("::")[-1]
+                ty = re.sub(r"'\w+\s*", "", mm.group("ty")).replace("&", "").replace("mut ", "").strip().split("::")[-1]
                 if mm.group("trait"):
                     tr = strip_generics(mm.group("trait")).split("::")[-1]
                     keys.append("<%s as %s>::%s" % (ty, tr, meth))
